@@ -4,6 +4,7 @@ CONSTANTS
   MaxDepth = 0
   StmtDepth = 1
   Effects = FALSE
+  Focus = "all"
   Quirks = FALSE
   EnvCap = 8
   RetTypes <- MC_RetInt
